@@ -13,8 +13,11 @@
                                      -> ok <value> <script> <height> <voutcount> <cb> | nil | panic | hang
     snapw <c:0|1> <height> <hash> <k> <rec>*k      -> ok <file>
     snapr <file>                     -> ok <c> <height> <hash> <k> <rec>*k | err
+    merge <u|c> <undo bytes> <old bytes|nil>   UndoBlockTxs for one undo record: decode both, merge, serialise
+                                     -> ok <bytes> | nil | panic
 -/
 import GocoinV.Model.UtxoRec
+import GocoinV.Model.UtxoUndo
 import GocoinV.Base.Proto
 open GocoinV GocoinV.UtxoRec
 
@@ -151,6 +154,21 @@ def step (last : Bytes) (toks : List String) : Bytes × String :=
     | some c, some h, some hash, some k, some recs =>
       if recs.length ≠ k then bad else (last, s!"ok {hex (snapEncode ⟨c, h, hash, recs⟩)}")
     | _, _, _, _, _ => bad
+  | ["merge", mode, u, old] =>
+    if mode ≠ "u" ∧ mode ≠ "c" then bad else
+    let dec := fun (b : Bytes) => if mode == "u" then newRecU b else newRecC K b
+    let ser := fun (r : Rec) => if mode == "u" then serializeU r else serializeC K r
+    match unhex u, (if old == "nil" then some none else (unhex old).map some) with
+    | some u, some old =>
+      match dec u, (match old with | none => Res.ok none | some b => (dec b).map some) with
+      | .ok ur, .ok oldr =>
+        match mergeUndo ur oldr with
+        | none => (last, "panic")
+        | some m => match ser m with
+          | some b => (last, s!"ok {hex b}")
+          | none => (last, "nil")
+      | _, _ => (last, "panic")
+    | _, _ => bad
   | ["snapr", f] => match unhex f with
     | some f => match snapDecode f with
       | some s =>
